@@ -1,7 +1,7 @@
 (** C19 — BDAT chunks are framed exactly and chunk boundaries never alter the message.
     Only statements here; proofs live in Proofs/Bdat*.v. *)
 From Qv Require Import Common.Bytes Gen.GenBdat Gen.GenBdatRx Model.BdatTx Model.BdatRx Spec.BdatSpec Spec.BdatRxSpec
-  Proofs.BdatDigits Proofs.BdatTxProofs Proofs.BdatSpecProofs Proofs.BdatSpecSound Proofs.BdatRxNet Proofs.BdatRxPiece Proofs.BdatRxProofs.
+  Proofs.BdatDigits Proofs.BdatTxProofs Proofs.BdatSpecProofs Proofs.BdatSpecSound Proofs.BdatRxNet Proofs.BdatRxPiece Proofs.BdatRxProofs Proofs.BdatRxParse Proofs.BdatRxSession Proofs.BdatRxSpecProofs.
 
 (** * Sending side (qremote/qrbdat.c:send_bdat with fixes/C19-bdat-final-crlf.diff).
     For every message, every chunk size from 16 (the minimum that fits
@@ -55,9 +55,9 @@ Print Assumptions C19_tx_unrepaired_refuted.
     the single envelope (announcing the exact octet count) and concatenates to the chunk data
     with CRLF -> LF, every other octet kept; what follows the data on the wire is left unread. *)
 Theorem C19_rx_content : forall cfg cmds stream cuts,
-  cfg_clean cfg -> one_transaction cmds ->
+  cfg_clean cfg -> c_wfail cfg = None -> one_transaction cmds ->
   total cmds <= length stream -> total cmds <= c_maxbytes cfg ->
-  exists s evs, rx_session cfg cmds stream cuts None = Ok (false, s, evs)
+  exists s evs, rx_session cfg false cmds stream cuts None = Ok (false, s, evs)
     /\ rx_delivered (firstn (total cmds) stream) evs
     /\ avail (r_net s) = skipn (total cmds) stream.
 Proof. exact rx_transaction_ok. Qed.
@@ -67,8 +67,8 @@ Print Assumptions C19_rx_content.
     queue write failing, a read error, the peer hanging up, the size limit): no out-of-range
     access, and once a command has returned an error no envelope is ever sent to the queue:
     a failure in one chunk fails the whole transaction. *)
-Theorem C19_rx_fail : forall cfg cmds stream cuts rfail, cfg_ok cfg ->
-  exists died s evs, rx_session cfg cmds stream cuts rfail = Ok (died, s, evs)
+Theorem C19_rx_fail : forall cfg qf cmds stream cuts rfail, cfg_ok cfg ->
+  exists died s evs, rx_session cfg qf cmds stream cuts rfail = Ok (died, s, evs)
     /\ no_env_after_fail false evs = true.
 Proof. exact rx_session_fail_final. Qed.
 Print Assumptions C19_rx_fail.
@@ -76,11 +76,66 @@ Print Assumptions C19_rx_fail.
 (** F-C19-2: the model of the unrepaired smtp_bdat loses a CR at the very end of the data when the
     LAST chunk is empty ("BDAT 2" a CR, "BDAT 0 LAST" queues only a). *)
 Theorem C19_rx_unrepaired_refuted :
-  let cfg := mk_cfg false None 100 1024 false in
-  exists s evs, rx_session cfg [(2, false, 0); (0, true, 0)] [97; 13]%N [] None = Ok (false, s, evs)
+  let cfg := mk_cfg None 100 1024 false in
+  exists s evs, rx_session cfg false [(2, false, 0); (0, true, 0)] [97; 13]%N [] None = Ok (false, s, evs)
     /\ ~ rx_delivered [97; 13]%N evs.
 Proof. exact rx_unrepaired_refuted. Qed.
 Print Assumptions C19_rx_unrepaired_refuted.
+
+(** * Round 2: the argument of BDAT, several transactions per session, the checkers
+
+    The argument parser of smtp_bdat (test of linein.s[5], strtoull, the blank, strcasecmp): for every command line
+    without NUL that the dispatcher hands over ("BDAT" in any case and a blank), it accepts exactly what
+    [bdat_arg] (Spec/BdatRxSpec.v) reads - "BDAT" SP 1*DIGIT [SP "LAST"], the number below 2^64, LAST in any case,
+    nothing else - and then runs the transaction code with exactly that number and flag; anything else returns
+    EINVAL (smtploop() answers "500 5.5.2 command syntax error") with the state untouched and nothing done. *)
+Theorem C19_rx_parse : forall cfg line s,
+  existsb (fun b => N.eqb b 0) line = false -> is_bdat_sp (firstn 5 line) = true -> r_goodrcpt s = true ->
+  parse_bdat line = bdat_arg line
+  /\ smtp_bdat_line cfg line s =
+     match bdat_arg line with
+     | None => Ok (Some EINVAL, s, [])
+     | Some (n, last) => smtp_bdat cfg n last s
+     end.
+Proof. intros cfg line s Hn Hb Hg. split; [apply parse_bdat_spec|apply smtp_bdat_line_spec]; assumption. Qed.
+Print Assumptions C19_rx_parse.
+
+(** A transaction in the middle of a session: [s] is ANY state left behind by what came before (completed,
+    failed in a chunk, aborted by RSET: lastcr, bdaterr, msgsize, descriptors arbitrary) in which MAIL is allowed;
+    the transaction is MAIL/RCPT, then well-formed BDAT lines (through the dispatcher row and the real parser),
+    only the final one with LAST; no injected fault is still ahead.  Then it queues exactly ITS data (the next
+    [tot] octets of the connection) with CRLF -> LF, followed by one envelope with the exact count, and leaves a
+    state in which the same holds again. *)
+Theorem C19_rx_transactions : forall cfg slen, cfg_clean cfg ->
+  forall recs pre0 rest s evs,
+  r_com s = CsHelo -> wf_clean cfg (r_wcount s) -> n_rfail (r_net s) = None ->
+  Forall (fun r => let '(_, line, sz, last) := r in valid_line line sz last) recs ->
+  one_transaction (map rec_c recs) ->
+  let tot := total (map rec_c recs) in
+  tot <= length (avail (r_net s)) -> tot <= c_maxbytes cfg ->
+  exists s' x,
+    run_script cfg slen (OpBegin pre0 false :: map rec_op recs ++ rest) s evs
+    = run_script cfg slen rest s'
+        (evs ++ [EvBegin (slen - length (avail (r_net s)))] ++ x ++ [EvEnv tot; EvFree; EvReply 250; EvRc E0])
+    /\ existsb is_env x = false /\ existsb is_fail x = false
+    /\ queued x = crlf2lf (firstn tot (avail (r_net s)))
+    /\ avail (r_net s') = skipn tot (avail (r_net s))
+    /\ r_com s' = CsHelo /\ n_rfail (r_net s') = None /\ wf_clean cfg (r_wcount s').
+Proof. exact rx_tx_independent. Qed.
+Print Assumptions C19_rx_transactions.
+
+(** The boolean checkers run on the observations of the C code decide their statements: [rx_ok] for one
+    transaction, [rxs_ok] (every transaction of the session cut out at its EvBegin satisfies [rx_ok] with its own
+    commands and the stream from its own start; nothing queued outside transactions) for sessions. *)
+Theorem C19_rx_checker : forall cfg qf cmds stream rfail evs,
+  spec_ok_C19_rx cfg qf cmds stream rfail evs = true <-> rx_ok cfg qf cmds stream rfail evs.
+Proof. exact spec_rx_decides. Qed.
+Print Assumptions C19_rx_checker.
+
+Theorem C19_rxs_checker : forall cfg ops stream rfail evs,
+  spec_ok_C19_rxs cfg ops stream rfail evs = true <-> rxs_ok cfg ops stream rfail evs.
+Proof. exact spec_rxs_decides. Qed.
+Print Assumptions C19_rxs_checker.
 
 (** the binary reader: whatever is buffered and however read() cuts the stream, a result is
     exactly the next [num] octets, and nothing is stored outside the caller's buffer *)
@@ -98,10 +153,10 @@ Example C19_nonvacuous :
   (let msg := [97; 13; 10; 98; 10; 10; 99; 13]%N in
    exists ws wn, send_bdat 17 msg None = Ok (ws, TxDone, wn) /\ length ws = 4
      /\ tx_norm msg [97; 13; 10; 98; 13; 10; 13; 10; 99; 13; 10]%N)
-  /\ (let cfg := mk_cfg false None 100 4 RX_CR_AFTER_LOOP in
+  /\ (let cfg := mk_cfg None 100 4 RX_CR_AFTER_LOOP in
       let cmds := [(2, false, 1); (3, false, 0); (0, true, 0)] in
       cfg_clean cfg /\ one_transaction cmds
-      /\ exists s evs, rx_session cfg cmds [97; 13; 10; 98; 13]%N [1; 1; 1] None = Ok (false, s, evs)
+      /\ exists s evs, rx_session cfg false cmds [97; 13; 10; 98; 13]%N [1; 1; 1] None = Ok (false, s, evs)
            /\ queued evs = [97; 10; 98; 13]%N).
 Proof.
   split.
